@@ -284,11 +284,15 @@ theorem lex_dirTimes (dp : Path) (dest : Str) :  (es : List Entry), ( e 
   | [], _ => lexSem_pure dp _ _ trivial
   | e :: es, h => by
     simp only [dirTimesP]
-    refine bindL dp _ _ (lex_info dp (.utimes _ _ true) (h e (by simp))) ?_
-    intro r _
+    refine bindL dp _ _ (lex_info dp (.lstat _) trivial) ?_
+    intro l _
     split
-    路 exact lexSem_pure dp _ _ trivial
     路 exact lex_dirTimes dp dest es (fun x hx => h x (by simp [hx]))
+    路 refine bindL dp _ _ (lex_info dp (.utimes _ _ true) (h e (by simp))) ?_
+      intro r _
+      split
+      路 exact lexSem_pure dp _ _ trivial
+      路 exact lex_dirTimes dp dest es (fun x hx => h x (by simp [hx]))
 
 theorem remapE_typ (o : Opts) (e e' : Entry) (h : remapE o e = some e') : e'.typ = e.typ := by
   unfold remapE at h
